@@ -386,6 +386,17 @@ def _same(ctx, got, ref, rtol, atol_vec=None, scale=None):
         md = float(np.nanmax(np.abs(g - ref))) if g.size else 0.0
     return ok, md
 
+def _eqv(ctx, d, a, b):
+    """two library evaluations of the same map on the same values: identical for pure copy maps, equal up to
+    round-off otherwise (elementwise transcendental maps / FFTs may differ in the last bit between a strided view
+    and a contiguous copy of the same numbers)."""
+    a = np.asarray(a, dtype=float); b = np.asarray(b, dtype=float)
+    if a.shape != b.shape:
+        return False
+    if d.rtol == 0:
+        return bool(np.array_equal(a, b, equal_nan=True))
+    return ctx.close(a, b, rtol=1e-11, atol=1e-14)
+
 def _shape_ok_batch(shape, single_shape, k):
     """batch result must be the per-column results stacked on a new last axis; a one-column batch may be squeezed."""
     shape, single_shape = tuple(shape), tuple(single_shape)
@@ -704,7 +715,7 @@ def probe_samples(ctx, d, rs, Ns):
         ctx.violation("samples_conversion", cfg("funvals"), detail=f"funvals: is_par={sf.is_par} Ns={sf.Ns} shape={A.shape}, expected function samples of shape {want_shape}")
         return
     for i in range(Ns):
-        if not np.array_equal(A[..., i].ravel(), per[i].ravel(), equal_nan=True):
+        if not _eqv(ctx, d, A[..., i].ravel(), per[i].ravel()):
             ctx.violation("samples_conversion", cfg("funvals"), detail=f"funvals sample {i} differs from par2fun of that sample (max diff {np.max(np.abs(A[..., i].ravel() - per[i].ravel())):.3g})")
             break
     same_form = [("parameters", lambda: s.parameters, P), ("vector", lambda: s.vector, P), ("funvals.funvals", lambda: sf.funvals, A)]
@@ -727,7 +738,7 @@ def probe_samples(ctx, d, rs, Ns):
             else:
                 for i in range(Ns):
                     okc, vi = _call(ctx, d, "fun2vec", "single", g.fun2vec, per[i].reshape(d.fun_shape) if per[i].size == int(np.prod(d.fun_shape)) else per[i])
-                    if okc and not np.array_equal(V[:, i], np.asarray(vi, dtype=float).ravel(), equal_nan=True):
+                    if okc and not _eqv(ctx, d, V[:, i], np.asarray(vi, dtype=float).ravel()):
                         ctx.violation("samples_conversion", cfg("vector"), detail=f"vector sample {i} differs from fun2vec(par2fun(sample))")
                         break
                 ok2, sf2 = _call(ctx, d, "Samples.funvals", "samples", lambda: sv.funvals)
@@ -795,7 +806,7 @@ def probe_array(ctx, d, rs):
         return
     ctx.count("array_conversion_checked")
     if not isinstance(af, CA) or af.is_par is not False or af.geometry is not g or np.shape(af) != np.shape(fdir) \
-            or not np.array_equal(np.asarray(af), np.asarray(fdir), equal_nan=True):
+            or not _eqv(ctx, d, np.asarray(af), np.asarray(fdir)):
         ctx.violation("array_conversion", cfg("funvals"), detail=f"CUQIarray.funvals (shape {np.shape(af)}, is_par={getattr(af, 'is_par', None)}) is not par2fun of the parameters (shape {np.shape(fdir)})")
         return
     if not np.array_equal(np.asarray(af.funvals), np.asarray(af)) or not np.array_equal(np.asarray(a.parameters), p):
